@@ -13,7 +13,7 @@ func init() {
 		ID: "C15", Level: "exploration",
 		Rule: "one case = one generated procedure over a three-name variable alphabet (@a,@b,@c), two function names and block-local cursors / temporary tables: nested IF / ELSEIF / CASE / WHILE blocks (depth <= 5), re-declarations in inner blocks (shadowing) and in the same block (error), assignments to outer variables, DISPOSE, use after the declaring block ended, BREAK / CONTINUE / EXIT, scalar functions with defaults, locals that shadow globals, recursion (depth <= 6) and mutual calls, RETURN from inside loops; every 8th case also calls the function from a query over 200..700 rows with --cpu 2..8 (concurrent invocations). 150 procedures run in each harness process so pooled scope objects are recycled. " +
 			"Oracle: a reference interpreter with block-scoped environments; the PRINT trace and whether (and where) the run ends in an error must agree. non-trivial = the procedure printed at least 4 values and contains shadowing or a call; distinct = program digest.",
-		Quick: 8000, Thorough: 200000, FloorQuick: 1200, FloorThorough: 30000,
+		Quick: 8000, Thorough: 1000000, FloorQuick: 1200, FloorThorough: 150000,
 		Assumptions: []string{"function bodies refer only to parameters, locals and top-level variables that are never shadowed (the manual does not say whether a caller's locals are visible)", "all values are small integers"},
 		Setup:       func(w *core.Worker) { core.HermeticProcess(w.Work) },
 		Fn:          c15Case,
